@@ -192,3 +192,53 @@ def derived(balanced, rng, n_each):
                 elif len(out["drop_any"]) < n_each // 2 and rng.random() < 0.3:
                     out["drop_any"].append(drop_molecule(s, side, j))
     return out
+
+
+def tied_completions(limit=40, rng=None):
+    """Reactions whose imbalance has several equally short decompositions into compounds of the shipped rule
+    database (e.g. NH3 + OH- = H2O + NH2-): pairs of compound pairs with the same total composition and charge,
+    computed with the RDKit oracle. Each tie {a, b} = {c, d} gives reactions in which a spectator carries the
+    rest, with the compounds missing on either side. Which decomposition the rule-based stage takes is its own
+    business; that the choice does not depend on the spelling is what C14 asks."""
+    import gzip
+    import json as _json
+    import os as _os
+    from harness import common as _common, oracle as _oracle
+    path = _os.path.join(_common.REPO, "synrbl/SynRuleImputer/rules_manager.json.gz")
+    try:
+        with gzip.open(path, "rt") as f:
+            db = _json.load(f)
+    except OSError:
+        with open(path) as f:
+            db = _json.load(f)
+    comps = []
+    for rec in db:
+        c = _oracle.comp(rec["smiles"])
+        if c is None:
+            continue
+        d, q = c
+        heavy = sum(n for el, n in d.items() if el != "H")
+        if heavy <= 3:
+            comps.append((rec["smiles"], tuple(sorted(d.items())), q))
+    sums = {}
+    for i in range(len(comps)):
+        for j in range(i, len(comps)):
+            tot = {}
+            for el, n in comps[i][1] + comps[j][1]:
+                tot[el] = tot.get(el, 0) + n
+            key = (tuple(sorted(tot.items())), comps[i][2] + comps[j][2])
+            sums.setdefault(key, []).append((comps[i][0], comps[j][0]))
+    ties = [v for v in sums.values() if len(v) >= 2]
+    ties.sort(key=lambda v: (len(v[0][0]) + len(v[0][1]), v))
+    out = []
+    spect = ["CCO", "CC(=O)O", "c1ccccc1", "CC(C)=O", "CCN"]
+    for k, v in enumerate(ties):
+        a, b = v[k % len(v)]
+        s = spect[k % len(spect)]
+        out.append("%s.%s.%s>>%s" % (s, a, b, s))       # compounds missing among the products
+        out.append("%s>>%s.%s.%s" % (s, a, s, b))       # ... among the reactants
+    seen = set()
+    out = [r for r in out if not (r in seen or seen.add(r))]
+    if rng is not None:
+        rng.shuffle(out)
+    return out[:limit]
